@@ -467,15 +467,31 @@ func modelFieldsSetDefault(c *mctx, s mState, entries []defaultEntry) []alt {
 	if len(entries) <= 1 {
 		return one(apply(s, entries))
 	}
-	if len(entries) != 2 {
-		panic("c15: fields_set_default model supports at most two entries")
+	// every order of application is an acceptable reading (the configuration
+	// is a YAML mapping: it has no order); they only differ when two
+	// references match one field with different values
+	var out []alt
+	seen := map[string]bool{}
+	var perm func(done, rest []defaultEntry)
+	perm = func(done, rest []defaultEntry) {
+		if len(rest) == 0 {
+			st := apply(s.clone(), done)
+			if k := canonState(st); !seen[k] {
+				seen[k] = true
+				out = append(out, alt{S: st})
+			}
+			return
+		}
+		for i := range rest {
+			r := append(append([]defaultEntry{}, rest[:i]...), rest[i+1:]...)
+			perm(append(append([]defaultEntry{}, done...), rest[i]), r)
+		}
 	}
-	a := apply(s.clone(), entries)
-	b := apply(s.clone(), []defaultEntry{entries[1], entries[0]})
-	if canonState(a) == canonState(b) {
-		return one(a)
+	if len(entries) > 4 {
+		panic("c15: fields_set_default model supports at most four entries")
 	}
-	return []alt{{S: a}, {S: b}}
+	perm(nil, entries)
+	return out
 }
 
 // replace_reference {from,to}: every `ref` whose target matches `from` points
